@@ -158,7 +158,15 @@ class HeapExec(DynExec):
              'is_keyword': SBool(self._b(self.contains(tt, W.T.Keyword, st))),
              'is_newline': SBool(self._b(self.contains(tt, W.T.Newline, st))),
              'normalized': SStr(F['normalized'](b, pos)), '__base__': seg['base'], '__pos__': pos}
+        if uni.get('__class_axioms__'):
+            # class invariants of the constructors (stated precondition of the segment): a node of a TokenList class is a
+            # group without a token type; a plain Token is a leaf
+            zg = subclass_formula(W, cls, W.sql.TokenList)
+            st.assume(isg.z == zg)
+            st.assume(z3.Implies(zg, tt.z == W.tt_none))
         for k, v in uni.items():
+            if k == '__class_axioms__':
+                continue
             if k == '__values_nonempty__':
                 # stated invariant of the segment: every element's value is non-empty (C01 for leaves, I3/I4 for groups)
                 st.assume(z3.Length(val.z) >= 1)
